@@ -3,14 +3,14 @@
 # Confirms a sub-agent-authored breaking change in its scratch worktree:
 #  demo passes without the patch, existing tests of the touched crates pass with it, demo fails with it.
 # Then copies patch/demo/meta to /verif/seeded/<Cxx>/ (meta.json gets a "confirmed" block).
-PID=$1; WT=${2:-/tmp/seed-$PID}; OUT=$WT/SEED_OUT
+PID=$1; WT=${2:-/tmp/seed-$PID}; ROUND=${3:-}; OUT=$WT/SEED_OUT$ROUND; SID=$PID${ROUND:+-$ROUND}
 [ -f $OUT/patch.diff ] || { echo "no $OUT/patch.diff"; exit 2; }
 cd $WT || exit 2
 git checkout -- . 2>/dev/null
 DEMO_CMD=$(python3 -c "import json,re;print(re.split(r'\s+\(', json.load(open('$OUT/meta.json'))['demo_cmd'])[0])")
 TEST_CMD=$(python3 -c "import json,re;print(re.split(r'\s+\(', json.load(open('$OUT/meta.json'))['existing_tests_cmd'])[0])")
 # untracked files = the demonstration; they are moved away while the EXISTING tests run
-UNTRACKED=$(git ls-files --others --exclude-standard | grep -v '^SEED_OUT/' | grep -v '^target/')
+UNTRACKED=$(git ls-files --others --exclude-standard | grep -v '^SEED_OUT' | grep -v '^target/')
 echo "== demo without patch: $DEMO_CMD"
 ( eval "$DEMO_CMD" ) > $OUT/confirm_demo_without.log 2>&1; r0=$?
 echo "   exit $r0"
@@ -32,8 +32,8 @@ m['confirmed']={'demo_without_patch_exit':$r0,'existing_tests_with_patch_exit':$
 json.dump(m,open('$OUT/meta.json','w'),indent=1)
 PY
 if [ $r0 -eq 0 ] && [ $r1 -eq 0 ] && [ $r2 -ne 0 ]; then
-  mkdir -p /verif/seeded/$PID && cp -r $OUT/patch.diff $OUT/meta.json /verif/seeded/$PID/ && cp -r $OUT/demo* /verif/seeded/$PID/ 2>/dev/null
-  echo "CONFIRMED $PID -> /verif/seeded/$PID"
+  mkdir -p /verif/seeded/$SID && cp -r $OUT/patch.diff $OUT/meta.json /verif/seeded/$SID/ && cp -r $OUT/demo* /verif/seeded/$SID/ 2>/dev/null
+  echo "CONFIRMED $SID -> /verif/seeded/$SID"
 else
   echo "NOT CONFIRMED $PID (demo_without=$r0 tests_with=$r1 demo_with=$r2)"
 fi
